@@ -425,6 +425,40 @@ func spBars(items int, withClip bool, level int) *BoolSpace {
 		}}
 }
 
+// spChain: a skeleton whose filled region touches itself along horizontal edges several times, so that the horizontal
+// join pass cuts one outline into three or more rings chained through their split lists (subject: bar (0,5)-(6,7) and
+// block (2,0)-(8,8); clip: block (5,0)-(8,5)), plus a unit square of the subject in every cell of the 8x8 grid and a unit
+// square of the clip in every cell, under the four mirror images: the hole or island made by the moving squares has to
+// be found through the split list of a sibling ring that does not contain it.
+func spChain(stride uint64, level int) *BoolSpace {
+	total := uint64(64 * 64 * 4)
+	rect := func(dst Path, x0, y0, x1, y1 int64, fx, fy bool) Path {
+		if fx {
+			x0, x1 = 8-x1, 8-x0
+		}
+		if fy {
+			y0, y1 = 8-y1, 8-y0
+		}
+		return append(dst[:0], Pt{X: x0, Y: y0}, Pt{X: x1, Y: y0}, Pt{X: x1, Y: y1}, Pt{X: x0, Y: y1})
+	}
+	var extra Path
+	return &BoolSpace{Name: fmt.Sprintf("N/chained splits: bar + block - block, a subject unit square and a clip unit square in every cell of the 8x8 grid, 4 mirror images, every %d-th", stride), Level: level, Size: (total + stride - 1) / stride, E: enum.Eunit,
+		Gen: func(idx uint64, g *genBuf) (Paths, Paths) {
+			idx *= stride
+			h, n, sym := int64(idx%64), int64(idx/64%64), idx/4096
+			fx, fy := sym&1 == 1, sym&2 == 2
+			g.reset()
+			g.p[0] = rect(g.p[0], h%8, h/8, h%8+1, h/8+1, fx, fy)
+			g.p[1] = rect(g.p[1], 0, 5, 6, 7, fx, fy)
+			g.p[2] = rect(g.p[2], 2, 0, 8, 8, fx, fy)
+			g.p[3] = rect(g.p[3], 5, 0, 8, 5, fx, fy)
+			extra = rect(extra, n%8, n/8, n%8+1, n/8+1, fx, fy)
+			g.s = append(g.s, g.p[0], g.p[1], g.p[2])
+			g.c = append(g.c, g.p[3], extra)
+			return g.s, g.c
+		}}
+}
+
 func init() {
 	all := allClipTypes
 	nestOps := []clipper.ClipType{clipper.Union, clipper.Xor, clipper.Difference}
@@ -441,7 +475,7 @@ func init() {
 				out = append(out, c04Scope(spSingle(enum.Eax, 3, 4, 2), all), c04Scope(spSingle(enum.Eax, 3, 5, 3), all), c04Scope(spSingle(enum.Esh, 3, 5, 3), all))
 				out = append(out, c04Scope(spPair("B2", enum.Eax, 3, 3, 3, 4), all), c04Scope(spTwo(enum.Esh, 3, 3, 4), all))
 				out = append(out, c04Scope(spRects(enum.Eax, 4, 5), all), c04Scope(spNest(enum.Eax, 4, false, 5), nestOps), c04Scope(spThree(enum.Eax, 13, 5), all), c04Scope(spBars(15, false, 6), nestOps), c04Scope(spTwoLevel(11, 7, 5), all), c04Scope(spThree(enum.Ean, 17, 5), all),
-					c04Scope(spBitmap(4, false, false, 1, 6), nestOps), c04Scope(spBitmap(3, false, true, 1, 6), all), c04Scope(spBitmap(4, true, true, 30011, 7), all), c04Scope(spDoubled(enum.Eax, 4, 11, 6), nestOps), c04Scope(spHardInputs(), all))
+					c04Scope(spBitmap(4, false, false, 1, 6), nestOps), c04Scope(spBitmap(3, false, true, 1, 6), all), c04Scope(spBitmap(4, true, true, 30011, 7), all), c04Scope(spDoubled(enum.Eax, 4, 11, 6), nestOps), c04Scope(spHardInputs(), all), c04Scope(spChain(1, 6), all))
 				return out
 			}
 			for _, e := range []enum.Embed{enum.Eax, enum.Esh, enum.Ean} {
